@@ -67,6 +67,11 @@ class PatchConflict(BzrError):
             patch_line: Expected line content from patch.
         """
         self.line_no = line_no
+        # The patcher works on bytes; decode for the message.
+        if isinstance(orig_line, bytes):
+            orig_line = orig_line.decode("utf-8", "replace")
+        if isinstance(patch_line, bytes):
+            patch_line = patch_line.decode("utf-8", "replace")
         self.orig_line = orig_line.rstrip("\n")
         self.patch_line = patch_line.rstrip("\n")
 
@@ -641,7 +646,11 @@ def iter_patched_from_hunks(orig_lines, hunks):
         orig_lines = iter(orig_lines)
     for hunk in hunks:
         while line_no < hunk.orig_pos:
-            orig_line = next(orig_lines)
+            try:
+                orig_line = next(orig_lines)
+            except StopIteration:
+                # The text ends before the hunk starts.
+                raise PatchConflict(line_no, b"", b"".join(seen_patch)) from None
             yield orig_line
             line_no += 1
         for hunk_line in hunk.lines:
@@ -649,7 +658,11 @@ def iter_patched_from_hunks(orig_lines, hunks):
             if isinstance(hunk_line, InsertLine):
                 yield hunk_line.contents
             elif isinstance(hunk_line, (ContextLine, RemoveLine)):
-                orig_line = next(orig_lines)
+                try:
+                    orig_line = next(orig_lines)
+                except StopIteration:
+                    # The text ends inside the hunk.
+                    raise PatchConflict(line_no, b"", b"".join(seen_patch)) from None
                 if orig_line != hunk_line.contents:
                     raise PatchConflict(line_no, orig_line, b"".join(seen_patch))
                 if isinstance(hunk_line, ContextLine):
